@@ -422,7 +422,9 @@ def verifyNodeArgs (s : State) (entNodes : List Key) (sn : SignedNode) : Option 
     | none => firstErr (nodeChecksPost s sn)
 
 /-- `VerifyNodeUpdate` (runtime versions/capabilities not modelled: every current runtime must
-still be listed). -/
+still be listed).  The id, entity and consensus-key checks come *before* the early return for expired
+nodes (api.go:1054-1080): they apply to active and expired nodes alike; only the runtime and role rules
+are waived for an expired node. -/
 def verifyNodeUpdate (s : State) (cur n : Node) : Option Res :=
   if cur.id ≠ n.id then some .nodeUpdateNotAllowed
   else if cur.entity ≠ n.entity then some .nodeUpdateNotAllowed
